@@ -1,5 +1,6 @@
 import DM.Drv.C12
 import DM.Drv.C06
+import DM.Drv.C07
 open DM.Drv
 
 def dispatch (args : List String) : String :=
@@ -7,6 +8,9 @@ def dispatch (args : List String) : String :=
   | some r => r
   | none =>
   match c06 args with
+  | some r => r
+  | none =>
+  match c07 args with
   | some r => r
   | none => "bad-op"
 
